@@ -23,6 +23,14 @@ func Silence() {
 	})
 }
 
+var logOnce sync.Once
+var theLog *go9p.Logger
+
+func sharedLog() *go9p.Logger {
+	logOnce.Do(func() { theLog = go9p.NewLogger(64) })
+	return theLog
+}
+
 // Start returns a started Ufs exporting root.
 func Start(root string, dotu bool, msize uint32) *go9p.Ufs {
 	Silence()
@@ -31,6 +39,7 @@ func Start(root string, dotu bool, msize uint32) *go9p.Ufs {
 	u.Id = "ufs"
 	u.Root = root
 	u.Msize = msize
+	u.Log = sharedLog() // Srv.Start would otherwise start one logger goroutine per server
 	if !u.Start(u) {
 		panic("ufsrv: Start failed")
 	}
